@@ -13,7 +13,7 @@ pub struct C11;
 impl Monitor for C11 {
     fn id(&self) -> &'static str { "C11" }
     fn rule(&self) -> &'static str {
-        "case = statement without LIMIT (plain, DISTINCT, aggregate with HAVING / PERCENTILE / COUNT(DISTINCT) / aggregate DISTINCT) over 3-30 lines; the lines are fed one at a time with ExecutionConfig::default() (the call follow mode makes). Oracle for every prefix length k: the table an aggregate shows after line k equals a fresh batch run over lines 1..k; the rows a non-aggregate emits for line k are exactly the suffix by which batch(k) extends batch(k-1). Non-trivial = >= 2 refreshes changed the output; distinct by (case, k) hash"
+        "case = statement without LIMIT (plain, DISTINCT, aggregate with HAVING / PERCENTILE / COUNT(DISTINCT) / aggregate DISTINCT) over 3-30 lines, one case in six an aggregate with an INNER / OUTER JOIN over a joined file with unique join keys (at most one partner per line: the open finding about several partners cannot occur); the lines are fed one at a time with ExecutionConfig::default() (the call follow mode makes). Oracle for every prefix length k: the table an aggregate shows after line k equals a fresh batch run over lines 1..k; the rows a non-aggregate emits for line k are exactly the suffix by which batch(k) extends batch(k-1). Non-trivial = >= 2 refreshes changed the output; distinct by (case, k) hash"
     }
     fn assumptions(&self) -> Vec<String> { vec!["batch = fresh engine, update-only per line, one aggregate_result (what FileExecutor does)".into()] }
     fn sizes(&self, tier: Tier) -> Sizes { match tier { Tier::Quick => Sizes { cases: 3_000, min_nontrivial: 10_000 }, Tier::Thorough => Sizes { cases: 150_000, min_nontrivial: 500_000 } } }
